@@ -6,6 +6,17 @@
 using namespace asl;
 static std::string unhex(const char* h) { std::string r; if (h[0] == '-') return r; for (size_t i = 0; h[i] && h[i + 1]; i += 2) { char b[3] = { h[i], h[i + 1], 0 }; r.push_back((char)strtoul(b, 0, 16)); } return r; }
 static bool parents_ok(const Xml& e) { for (int i = 0; i < e.numChildren(); i++) { Xml c = e.child(i); if (!c.isText() && !(c.parent() == e)) return false; if (!parents_ok(c)) return false; } return true; }
+// canonical form of a tree for comparison: adjacent text merged, whitespace-only text dropped
+static bool ws_only(const String& t) { for (int i = 0; i < t.length(); i++) if (t[i] != ' ' && t[i] != '\n' && t[i] != '\r' && t[i] != '\t') return false; return true; }
+static std::string canon(const Xml& e) {
+	if (e.isText()) return std::string("T(") + *e.text() + ")";
+	std::string r = std::string("<") + *e.tag(); foreach2(String& k, String& v, e.attribs()) r += std::string(" ") + *k + "=" + *v; r += ">";
+	std::string pending;
+	for (int i = 0; i < e.numChildren(); i++) { Xml c = e.child(i); if (c.isText()) { pending += *c.text(); continue; } if (pending.size() && !ws_only(pending.c_str())) r += "T(" + pending + ")"; pending = ""; r += canon(c); }
+	if (pending.size() && !ws_only(pending.c_str())) r += "T(" + pending + ")";
+	return r + "</>";
+}
+static bool all_parents_ok(const Xml& e) { for (int i = 0; i < e.numChildren(); i++) { Xml c = e.child(i); if (!(c.parent() == e)) return false; if (!c.isText() && !all_parents_ok(c)) return false; } return true; }
 int main(int argc, char** argv)
 {
 	std::string cmd = argc > 1 ? argv[1] : "";
@@ -20,6 +31,32 @@ int main(int argc, char** argv)
 		String text = Xml::encode(e, false); Xml back = Xml::decode(text);
 		if (!back || back.tag() != "item" || back["v"] != v || back.text() != v) { printf("REPRODUCED encode/decode does not preserve byte 0x%02x: %s\n", (unsigned char)c, *text); return 1; }
 		printf("OK\n"); return 0;
+	}
+	if (cmd == "battery") {
+		// decoding: parent links of EVERY child (elements and text), documents with comments / PIs / references / CDATA-free mixed content, and malformed ones
+		const char* docs[] = { "<a>t<b x='1'>u<c/>v</b>w<!-- c -->x<?pi y?>z</a>", "<r><i>1</i><i>2<j k=\"&amp;&lt;\">&#65;&#x42;</j></i>tail</r>", "<?xml version=\"1.0\"?><!DOCTYPE r><r a=\"b\"> <s/> text <s></s></r>",
+			"<a><b>only</b></a>", "<a>&apos;&quot;&gt;</a>", "</>", "<a></b>", "<a", "<a><b></a>", "<a x=>", "&#1114112;<a/>", "<a>&#xFFFFFFFF;</a>", "<a/><b/>", "" };
+		for (unsigned d = 0; d < sizeof(docs) / sizeof(docs[0]); d++) { Xml x = Xml::decode(docs[d]); if (x && !all_parents_ok(x)) { printf("REPRODUCED after decoding document %u a child's parent() is not the element that contains it\n", d); return 1; } }
+		// encode -> decode on generated trees: shapes x text kinds (empty, plain, markup characters, non-ASCII), compact form
+		const char* texts[] = { "", "plain", "a<b>&\"'c", "\xC3\xA9\xE2\x82\xAC", "  ", "x" };
+		int made = 0;
+		for (int shape = 0; shape < 6; shape++) for (unsigned t1 = 0; t1 < 6; t1++) for (unsigned t2 = 0; t2 < 6; t2++) {
+			Xml root("root"); root.setAttr("at", texts[t1]);
+			if (shape == 0) { root << XmlText(texts[t1]); }
+			else if (shape == 1) { root << XmlText(texts[t1]) << Xml("e") << XmlText(texts[t2]); }
+			else if (shape == 2) { Xml item("item", texts[t1]); item << Xml("k", texts[t2]); root << item; }
+			else if (shape == 3) { root << Xml("e1") << XmlText(texts[t1]) << Xml("e2", texts[t2]) << Xml("e3"); }
+			else if (shape == 4) { Xml in("in"); in << XmlText(texts[t1]) << Xml("deep") << Xml("deep2", texts[t2]); root << XmlText(texts[t2]) << in << in.clone(); }
+			else { Xml e("e"); e.setAttr("q", texts[t2]); e << XmlText(texts[t1]) << XmlText(texts[t2]); root << e << Xml("z"); }
+			String text = Xml::encode(root, false); Xml back = Xml::decode(text); made++;
+			if (!back) { printf("REPRODUCED encoded tree does not decode (shape %d, texts %u/%u): %s\n", shape, t1, t2, *text); return 1; }
+			if (canon(back) != canon(root)) { printf("REPRODUCED decode(encode(tree)) differs (shape %d, texts %u/%u)\n  tree: %s\n  back: %s\n  text: %s\n", shape, t1, t2, canon(root).c_str(), canon(back).c_str(), *text); return 1; }
+			if (!all_parents_ok(back)) { printf("REPRODUCED parent links after decode(encode(tree))\n"); return 1; }
+		}
+		// every byte in an attribute value and in text
+		for (int c = 1; c < 256; c++) { String v; v << 'a' << (char)c << 'b'; Xml e("item"); e.setAttr("v", v); e << XmlText(v); Xml back = Xml::decode(Xml::encode(e, false));
+			if (!back || back["v"] != v || back.text() != v) { printf("REPRODUCED byte 0x%02x is not preserved by encode/decode\n", c); return 1; } }
+		printf("OK %d trees\n", made); return 0;
 	}
 	return 2;
 }
